@@ -430,7 +430,9 @@ def run_property(modname, tier, seed, only_subs=None, procs=None):
         "violations": len(vio_list),
     }
     os.makedirs(os.path.join(VERIF_DIR, "evidence"), exist_ok=True)
-    if not only_subs:
+    if REPO != "/repo":
+        print("note: VERIF_REPO=%s is a scratch copy; evidence/%s.json is only written for runs against /repo" % (REPO, pid))
+    elif not only_subs:
         with open(os.path.join(VERIF_DIR, "evidence", "%s.json" % pid), "w") as f:
             json.dump(evidence, f, indent=1, default=repr)
             f.write("\n")
